@@ -34,7 +34,7 @@ def meta(tier, seed):
                                 "no binarizer at construction, binary first call, add_arm(3, binarizer), further calls",
                                 "the same with add_arm(3, binarizer) as the last call before the queries (up to 2 rows)"],
                    "n_jobs": "1; additionally 2 (joblib model, default schedule) with up to 3 rows for %s" % (
-                       ["none", "rad", "tree"] if tier == "quick" else NPS_)},
+                       ["none", "rad"] if tier == "quick" else NPS_)},
         "assumptions": [],
     }
 
@@ -47,7 +47,7 @@ def shards(tier, seed):
                 out.append({"nn": nn, "bin": b, "nmax": 3 if tier == "quick" else 4, "first": first, "seed": 121 + seed})
     # the same histories with the work partitioned over two jobs (joblib model, default schedule): every reward must
     # still meet the binarizer once, with the decision of its own row
-    for nn in (["none", "rad", "tree"] if tier == "quick" else NPS_):
+    for nn in (["none", "rad"] if tier == "quick" else NPS_):
         for b in BINS:
             for first in range(len(ROWS)):
                 out.append({"nn": nn, "bin": b, "nmax": 3, "first": first, "seed": 121 + seed, "n_jobs": 2})
